@@ -30,6 +30,10 @@ def c02() -> int:
     # vehicles with idle draw: one holds the DCFC plug for many steps, a nearly empty one queues and runs dry while waiting
     fsx(c, RES + ({"variant": "full", "mechs": ("thirsty", "thirsty", "quiet"), "name": "W-res/drain"},), ("hivemc.bundles", "c02", {}),
         K=2 if quick else 3, H=9 if quick else 11, needs=["c02:queued_vehicle_empty"])
+    # a combustion vehicle among electric plugs and a gas pump; human and autonomous drivers that speak
+    fsx(c, RES + ({"variant": "core", "gas": True, "mechs": ("thirsty", "tiny_thirsty", "ice"), "name": "W-res/energy"},), ("hivemc.bundles", "c02", {}),
+        K=2 if quick else 3, H=7 if quick else 9)
+    fsx(c, ("hivemc.w_prec", "make", {}), ("hivemc.bundles", "c02", {}), K=2 if quick else 3, H=6 if quick else 8)
     return c.finish()
 
 
@@ -47,6 +51,7 @@ def c07() -> int:
     # a base whose station stands on another cell (bases.csv and stations.csv carry independent coordinates)
     fsx(c, RES + ({"variant": "core", "split_base": True, "pairs": False, "name": "W-res/split-base"},), ("hivemc.bundles", "c07", {}), K=2 if quick else 3, H=7 if quick else 9,
         needs=["instr:Idle:ChargeBase:ChargingBase", "instr:ChargingStation:ChargeBase:ChargingStation|instr:Idle:ChargeBase:Idle"])
+    fsx(c, ("hivemc.w_prec", "make", {}), ("hivemc.bundles", "c07", {}), K=2 if quick else 3, H=6 if quick else 8)
     return c.finish()
 
 
